@@ -19,7 +19,7 @@ const (
 	dtnEndpointDtnNone    = "dtn:none"
 	dtnEndpointDtnNoneSsp = "none"
 
-	dtnEndpointRegexpSsp  = `//([\w-._]+)/(.*)`
+	dtnEndpointRegexpSsp  = `//([\w-._]+)/([\x21-\x7e]*)`
 	dtnEndpointRegexpFull = "^" + dtnEndpointSchemeName + ":(none|" + dtnEndpointRegexpSsp + ")$"
 )
 
